@@ -49,6 +49,8 @@ def make_data(F, rng, ctx, path, nmax, big=False):
         if r < 0.4:
             s, dt = zoo.derive(rng, s)                          # a sample in the middle of an analysis
             return s, tag + ('-derived' if dt != 'fresh' else '')
+        if r < 0.5 and s.shape[0]:
+            return zoo.arith(rng, s)[0], tag + '-arith'         # values that went through arithmetic before (fractional values)
         return s, tag
     if kind == 2:
         return rng.integers(0, 1024, size=(N, D)), 'int-array'
